@@ -39,7 +39,8 @@ THEOREMS = [T + n for n in [
     "plugin_only_undeclared_transition", "plugin_exactly_one_completion", "plugin_nothing_but_failures_after_completion",
     "plugin_mark_stage_failures_defined",
     # plugin provider, synchronisation skeleton
-    "provide_never_blocks", "provide_cancelled_never_blocks_partial", "provide_cancelled_may_block_counterexample",
+    "provide_never_blocks", "provide_cancelled_never_blocks", "cancel_signals_bounded",
+    "provide_cancelled_may_block_counterexample",
     "provide_cancelled_never_panics", "provide_cancelled_without_handler_cancels_context",
     "second_input_refused", "close_idempotent", "close_always_possible", "no_notification_after_close_returns",
     "wait_group_counts_goroutines", "close_returns", "close_cancels_context",
@@ -61,7 +62,7 @@ PLUGIN_KINDS = {
     "notification-after-close": ("notification-after-close", "a plugin step notification started after Close/ForceClose had returned"),
     "provide-blocked:cancelled":
         ("provide-blocked:cancelled-flood",
-         "ProvideStageInput(\"cancelled\", stop_if=true) blocks in cancelStep on `r.signalToStep <-` (capacity 10, r.lock held) "
+         "(regression of the stop-once repair) ProvideStageInput(\"cancelled\", stop_if=true) blocks in cancelStep on `r.signalToStep <-` (capacity 10, r.lock held) "
          "when stop requests are repeated and the plugin no longer reads its input; run(), State(), Close then block on r.lock"),
     "provide-blocked": ("provide-blocked", "ProvideStageInput of the plugin provider did not return"),
     "second-input-accepted": ("second-input-accepted", "the plugin provider accepted the same stage input twice"),
